@@ -1,6 +1,15 @@
-// pwtranslate translates the functions of psql-wire's pkg/buffer (working tree given as argv[1])
-// into executable Lean definitions over the run-time library Pw/Go/Rt.lean and prints
-// Pw/Generated/Trans.lean.  The Lean theorems of Pw/Props/Tie.lean relate every translated
+// pwtranslate translates functions of psql-wire (working tree given on the command line) into
+// executable Lean definitions over the run-time libraries Pw/Go/Rt.lean and Pw/Go/RtCopy.lean.
+//
+//	pwtranslate <repo>            pkg/buffer (methods of buffer.Reader / buffer.Writer): prints
+//	                              Pw/Generated/Trans.lean (namespace Pw.Trans) on stdout
+//	pwtranslate -copy <repo>      copy.go of the root package (CopyReader.Read, BinaryCopyReader.fill,
+//	                              take, takeLength, skipHeader, Read): prints Pw/Generated/TransCopy.lean
+//	                              (namespace Pw.TransCopy; imports Trans.lean and calls its definitions)
+//	pwtranslate -o <dir> <repo>   writes both files into <dir> (only when their contents changed)
+//
+// main.go holds the translation scheme proper; copy.go holds what is specific to copy.go (loading the
+// root package, the mapping of receivers/fields to the world, the calls it may make).  The Lean theorems of Pw/Props/Tie.lean relate every translated
 // function to the hand-written model, so the model's byte-level layer is re-derived from the
 // source on every check run.  Stdlib only (go/parser, go/types with the source importer).
 //
@@ -12,7 +21,13 @@
 //	for c { B } ; rest     a recursive `loopN fuel vars w`:  if ⟦c⟧ then ⟦B ; loopN⟧ else ⟦rest⟧
 //	return e               run deferred calls, then `.ok ⟦e⟧ w`
 //	a[i], a[lo:hi]         chk (checked operation) fun t => …       (a Go panic is `Out.panic`)
-//	f(args)                (⟦f⟧ args w).bind fun r w => …
+//	f(args)                (⟦f⟧ args w).bind fun r w => …     (`⟦f⟧ fuel args w` when f contains a loop,
+//	                       directly or through its callees; the caller then takes `fuel` itself)
+//	for {B}, L: for …      as above without the test; `continue` / `continue L` = the call `loopN fuel vars w`
+//	for i := range n {B}   loopN with the bound and `i` as extra state; `continue` increments `i` first
+//	switch x { case a, b: A … default: D } ; rest
+//	                       let t := ⟦x⟧ ; if t = a ∨ t = b then ⟦A ; rest⟧ else … else ⟦D ; rest⟧
+//	x := e in an inner scope that shadows x      the inner variable is renamed x_1 (names follow go/types objects)
 //
 // A construct outside the supported subset makes the function "untranslatable": it is listed in
 // `untranslatable` (Tie.lean demands the list be empty) and its definition is omitted.
@@ -52,9 +67,26 @@ type tr struct {
 	loops      []string // emitted loop definitions (before the function)
 	loopN      int
 	params     []param // function parameters (for loop signatures)
-	hasLoop    map[string]bool
 	fnPos      token.Pos
 	aliasFrame map[string]bool
+	// naming of Go variables (go/types objects) in the current function
+	names map[types.Object]string
+	used  map[string]bool
+	// fuel: functions (Lean names) that take a `fuel` argument; whether the current one must
+	needFuel map[string]bool
+	usesFuel bool
+	// enclosing loops of the statement being translated, innermost last
+	loopStack []loopCtx
+	labels    map[ast.Stmt]string
+	// copy.go mode (see copy.go)
+	copy    bool
+	bufFns  map[string]bool // translated functions of pkg/buffer, e.g. "Reader_Slurp"
+	copyFns map[string]bool // functions of copy.go translated so far
+}
+
+type loopCtx struct {
+	name, label, args string
+	post              []string // statements run before the next iteration (`i++` of a range loop)
 }
 
 type param struct{ name, typ string }
@@ -68,6 +100,44 @@ func id(n string) string {
 		return n + "_"
 	}
 	return n
+}
+
+// ident: the Lean name of a Go identifier.  Variables of the current function are named after their
+// go/types object: a variable that shadows another one of the same name gets a numeric suffix.
+func (t *tr) ident(e *ast.Ident) string {
+	obj := t.info.Defs[e]
+	if obj == nil {
+		obj = t.info.Uses[e]
+	}
+	if n, ok := t.names[obj]; ok && obj != nil {
+		return n
+	}
+	return id(e.Name)
+}
+
+// nameVars assigns the Lean names of all variables declared in fd, in source order.
+func (t *tr) nameVars(fd *ast.FuncDecl) {
+	t.names, t.used = map[types.Object]string{}, map[string]bool{}
+	ast.Inspect(fd, func(n ast.Node) bool {
+		idt, ok := n.(*ast.Ident)
+		if !ok || idt.Name == "_" {
+			return true
+		}
+		v, ok := t.info.Defs[idt].(*types.Var)
+		if !ok || v.IsField() {
+			return true
+		}
+		if _, done := t.names[v]; done {
+			return true
+		}
+		name := id(idt.Name)
+		for k := 1; t.used[name]; k++ {
+			name = fmt.Sprintf("%s_%d", id(idt.Name), k)
+		}
+		t.used[name] = true
+		t.names[v] = name
+		return true
+	})
 }
 
 func (t *tr) src(n ast.Node) string {
@@ -117,6 +187,8 @@ func numKind(ty types.Type) string {
 		return "u16"
 	case types.Uint32:
 		return "u32"
+	case types.Uint64:
+		return "u64"
 	case types.Uint8:
 		return "byte"
 	}
@@ -126,9 +198,11 @@ func numKind(ty types.Type) string {
 func (t *tr) leanType(ty types.Type) string {
 	switch {
 	case isError(ty):
-		return "Option Err"
+		return t.errTy()
+	case t.copy && t.copyType(ty) != "":
+		return t.copyType(ty)
 	case t.isByteSlice(ty):
-		if t.recvKind == "Reader" {
+		if t.recvKind == "Reader" && !t.copy {
 			return "Sl"
 		}
 		return "Bytes"
@@ -149,6 +223,77 @@ func (t *tr) leanType(ty types.Type) string {
 	}
 	fail("unsupported type %s", ty)
 	return ""
+}
+
+// names that differ between the two modes (pkg/buffer: World/Out/Err, copy.go: CWorld/COut/CErr)
+func (t *tr) errTy() string {
+	if t.copy {
+		return "Option CErr"
+	}
+	return "Option Err"
+}
+
+func (t *tr) chk() string {
+	if t.copy {
+		return "chkC"
+	}
+	return "chk"
+}
+
+func (t *tr) junk() string {
+	if t.copy {
+		return "w.base.junk"
+	}
+	return "w.junk"
+}
+
+func (t *tr) worldTy() string {
+	if t.copy {
+		return "CWorld"
+	}
+	return "World"
+}
+
+func (t *tr) outTy() string {
+	if t.copy {
+		return "COut"
+	}
+	return "Out"
+}
+
+// libErr: an error value of pkg/buffer / io (`Err.…`) as a value of the mode's error type
+func (t *tr) libErr(e string) string {
+	if t.copy {
+		return "(some (CErr.lib " + e + "))"
+	}
+	if strings.Contains(e, " ") {
+		return "(some (" + e + "))"
+	}
+	return "(some " + e + ")"
+}
+
+// place: the world path (below `w.`) of an lvalue reached from the receiver
+func (t *tr) place(e ast.Expr) (string, bool) {
+	if t.copy {
+		return t.copyPlace(e)
+	}
+	if f, ok := t.recvField(e); ok {
+		return t.recvLean() + "." + f, true
+	}
+	return "", false
+}
+
+// setPlace: `let w := { w with … := val }` for a world path
+func setPlace(path, val string) string {
+	parts := strings.Split(path, ".")
+	var build func(prefix string, rest []string) string
+	build = func(prefix string, rest []string) string {
+		if len(rest) == 1 {
+			return fmt.Sprintf("{ %s with %s := %s }", prefix, rest[0], val)
+		}
+		return fmt.Sprintf("{ %s with %s := %s }", prefix, rest[0], build(prefix+"."+rest[0], rest[1:]))
+	}
+	return "let w := " + build("w", parts)
 }
 
 func tupleType(ts []string) string {
@@ -229,16 +374,21 @@ func (t *tr) expr(e ast.Expr, p *pre) string {
 			_ = ty
 			fail("bare nil outside a typed context")
 		}
-		return id(e.Name)
+		return t.ident(e)
 	case *ast.SelectorExpr:
-		if f, ok := t.recvField(e); ok {
-			return "w." + t.recvLean() + "." + f
+		if pl, ok := t.place(e); ok {
+			return "w." + pl
 		}
 		switch t.src(e) {
 		case "io.EOF":
-			return "(some Err.eof)"
+			return t.libErr("Err.eof")
 		case "io.ErrUnexpectedEOF":
-			return "(some Err.unexpectedEOF)"
+			return t.libErr("Err.unexpectedEOF")
+		}
+		if t.copy {
+			if r, ok := t.copySelector(e, p); ok {
+				return r
+			}
 		}
 		fail("unsupported selector %s", t.src(e))
 	case *ast.UnaryExpr:
@@ -268,9 +418,9 @@ func (t *tr) expr(e ast.Expr, p *pre) string {
 		v := t.fresh()
 		switch t.rep(e.X) {
 		case "Sl":
-			p.add(fmt.Sprintf("chk (Sl.index %s %s) fun %s =>", x, i, v))
+			p.add(fmt.Sprintf("%s (Sl.index %s %s) fun %s =>", t.chk(), x, i, v))
 		case "Bytes":
-			p.add(fmt.Sprintf("chk (arrIndex %s %s) fun %s =>", x, i, v))
+			p.add(fmt.Sprintf("%s (arrIndex %s %s) fun %s =>", t.chk(), x, i, v))
 		default:
 			fail("index into %s", t.typeOf(e.X))
 		}
@@ -287,11 +437,11 @@ func (t *tr) expr(e ast.Expr, p *pre) string {
 			case e.Low == nil && e.High == nil:
 				return x
 			case e.Low == nil:
-				p.add(fmt.Sprintf("chk (Sl.sliceTo w.junk %s %s) fun %s =>", x, t.expr(e.High, p), v))
+				p.add(fmt.Sprintf("%s (Sl.sliceTo %s %s %s) fun %s =>", t.chk(), t.junk(), x, t.expr(e.High, p), v))
 			case e.High == nil:
-				p.add(fmt.Sprintf("chk (Sl.sliceFrom w.junk %s %s) fun %s =>", x, t.expr(e.Low, p), v))
+				p.add(fmt.Sprintf("%s (Sl.sliceFrom %s %s %s) fun %s =>", t.chk(), t.junk(), x, t.expr(e.Low, p), v))
 			default:
-				p.add(fmt.Sprintf("chk (Sl.slice w.junk %s %s %s) fun %s =>", x, t.expr(e.Low, p), t.expr(e.High, p), v))
+				p.add(fmt.Sprintf("%s (Sl.slice %s %s %s %s) fun %s =>", t.chk(), t.junk(), x, t.expr(e.Low, p), t.expr(e.High, p), v))
 			}
 		case "Bytes":
 			lo, hi := "0", "("+x+".length : Int)"
@@ -304,7 +454,7 @@ func (t *tr) expr(e ast.Expr, p *pre) string {
 			if e.Low == nil && e.High == nil {
 				return x
 			}
-			p.add(fmt.Sprintf("chk (arrSlice %s %s %s) fun %s =>", x, lo, hi, v))
+			p.add(fmt.Sprintf("%s (arrSlice %s %s %s) fun %s =>", t.chk(), x, lo, hi, v))
 		default:
 			fail("slice of %s", t.typeOf(e.X))
 		}
@@ -323,6 +473,19 @@ func (t *tr) expr(e ast.Expr, p *pre) string {
 
 // rep: the Lean representation of the VALUE of e (a slice of an array is a plain byte list)
 func (t *tr) rep(e ast.Expr) string {
+	if t.copy && t.isByteSlice(t.typeOf(e)) {
+		// only `reader.Msg` (and slices of it) carries a layout; every other []byte of copy.go is a byte list
+		switch x := e.(type) {
+		case *ast.ParenExpr:
+			return t.rep(x.X)
+		case *ast.SliceExpr:
+			return t.rep(x.X)
+		}
+		if pl, ok := t.place(e); ok && strings.HasSuffix(pl, "reader.Msg") {
+			return "Sl"
+		}
+		return "Bytes"
+	}
 	switch x := e.(type) {
 	case *ast.ParenExpr:
 		return t.rep(x.X)
@@ -345,7 +508,7 @@ func (t *tr) bytesOf(e ast.Expr, p *pre) string {
 
 func (t *tr) wrap(kind, e string) string {
 	switch kind {
-	case "i64", "i32", "i16", "u16", "u32":
+	case "i64", "i32", "i16", "u16", "u32", "u64":
 		return "(" + kind + " " + e + ")"
 	}
 	return e
@@ -355,8 +518,10 @@ func (t *tr) wrap(kind, e string) string {
 func (t *tr) typed(e ast.Expr, want string, p *pre) string {
 	if idt, ok := e.(*ast.Ident); ok && idt.Name == "nil" {
 		switch want {
-		case "Option Err":
+		case "Option Err", "Option CErr":
 			return "none"
+		case "List AnyV":
+			return "([] : List AnyV)"
 		case "Sl":
 			return "({} : Sl)"
 		case "Bytes":
@@ -422,7 +587,7 @@ func (t *tr) cond(e ast.Expr, p *pre) string {
 				lt := t.leanType(t.typeOf(e.X))
 				x := t.expr(e.X, p)
 				switch lt {
-				case "Option Err":
+				case "Option Err", "Option CErr":
 					return "(" + x + op + "none)"
 				case "Sl":
 					if e.Op == token.NEQ {
@@ -442,7 +607,11 @@ func (t *tr) cond(e ast.Expr, p *pre) string {
 			return "(" + t.expr(e.X, p) + op + t.expr(e.Y, p) + ")"
 		}
 	case *ast.Ident:
-		return "(" + id(e.Name) + " = true)"
+		return "(" + t.ident(e) + " = true)"
+	case *ast.SelectorExpr, *ast.CallExpr:
+		if t.copy && t.leanType(t.typeOf(e)) == "Bool" {
+			return "(" + t.expr(e, p) + " = true)"
+		}
 	}
 	fail("unsupported condition %s", t.src(e))
 	return ""
@@ -477,6 +646,11 @@ func (t *tr) callMulti(c *ast.CallExpr, p *pre) []string {
 			return []string{t.wrap(tk, x)}
 		}
 		fail("unsupported conversion %s", t.src(c))
+	}
+	if t.copy {
+		if rs, ok := t.copyCall(c, fun, p); ok {
+			return rs
+		}
 	}
 	switch fun {
 	case "len":
@@ -513,7 +687,7 @@ func (t *tr) callMulti(c *ast.CallExpr, p *pre) []string {
 	case "binary.BigEndian.Uint16", "binary.BigEndian.Uint32":
 		v := t.fresh()
 		f := map[string]string{"binary.BigEndian.Uint16": "beUint16", "binary.BigEndian.Uint32": "beUint32"}[fun]
-		p.add(fmt.Sprintf("chk (%s %s) fun %s =>", f, t.bytesOf(c.Args[0], p), v))
+		p.add(fmt.Sprintf("%s (%s %s) fun %s =>", t.chk(), f, t.bytesOf(c.Args[0], p), v))
 		return []string{v}
 	case "binary.BigEndian.PutUint16", "binary.BigEndian.PutUint32":
 		f := map[string]string{"binary.BigEndian.PutUint16": "bePutUint16", "binary.BigEndian.PutUint32": "bePutUint32"}[fun]
@@ -524,8 +698,8 @@ func (t *tr) callMulti(c *ast.CallExpr, p *pre) []string {
 				fail("%s into %s", fun, t.typeOf(d))
 			}
 			v := t.fresh()
-			p.add(fmt.Sprintf("chk (%s %s %s) fun %s =>", f, id(d.Name), val, v))
-			p.add(fmt.Sprintf("let %s := %s", id(d.Name), v))
+			p.add(fmt.Sprintf("chk (%s %s %s) fun %s =>", f, t.ident(d), val, v))
+			p.add(fmt.Sprintf("let %s := %s", t.ident(d), v))
 			t.writeBackAlias(d.Name, p)
 			return nil
 		case *ast.SliceExpr:
@@ -537,7 +711,7 @@ func (t *tr) callMulti(c *ast.CallExpr, p *pre) []string {
 			win := t.expr(d, p)
 			v := t.fresh()
 			p.add(fmt.Sprintf("chk (%s %s %s) fun %s =>", f, win, val, v))
-			p.add(fmt.Sprintf("let %s := arrPatch %s (Int.toNat %s) %s", id(base.Name), id(base.Name), lo, v))
+			p.add(fmt.Sprintf("let %s := arrPatch %s (Int.toNat %s) %s", t.ident(base), t.ident(base), lo, v))
 			t.writeBackAlias(base.Name, p)
 			return nil
 		}
@@ -567,7 +741,7 @@ func (t *tr) callMulti(c *ast.CallExpr, p *pre) []string {
 		fail("io.ReadFull into %s", t.src(dst))
 	}
 	// methods reached through the receiver
-	if t.recvName != "" {
+	if t.recvName != "" && !t.copy {
 		rn := t.recvName
 		switch fun {
 		case rn + ".Buffer.ReadByte":
@@ -610,8 +784,9 @@ func (t *tr) callMulti(c *ast.CallExpr, p *pre) []string {
 					fail("call of %s", fun)
 				}
 				args := ""
-				if t.hasLoop[t.recvKind+"_"+s.Sel.Name] {
-					fail("call of a function containing a loop: %s", fun)
+				if t.needFuel[t.recvKind+"_"+s.Sel.Name] {
+					// the callee contains a loop: it runs on the caller's fuel
+					args, t.usesFuel = " fuel", true
 				}
 				for i, a := range c.Args {
 					args += " " + t.typed(a, t.leanType(sig.Params().At(i).Type()), p)
@@ -691,15 +866,25 @@ func (t *tr) assign(lhs ast.Expr, val string, depth int, out *[]string) {
 		if l.Name == "_" {
 			return
 		}
-		*out = append(*out, fmt.Sprintf("%slet %s := %s", ind(depth), id(l.Name), val))
+		*out = append(*out, fmt.Sprintf("%slet %s := %s", ind(depth), t.ident(l), val))
 		return
 	case *ast.SelectorExpr:
-		if f, ok := t.recvField(l); ok {
-			*out = append(*out, fmt.Sprintf("%slet w := { w with %s := { w.%s with %s := %s } }", ind(depth), t.recvLean(), t.recvLean(), f, val))
+		if pl, ok := t.place(l); ok {
+			*out = append(*out, ind(depth)+setPlace(pl, val))
 			return
 		}
 	case *ast.IndexExpr:
-		if f, ok := t.recvField(l.X); ok && isByteArray(t.typeOf(l.X)) {
+		if x, ok := l.X.(*ast.Ident); ok && t.copy && t.leanType(t.typeOf(x)) == "List AnyV" {
+			// row[i] = v on a local []any
+			p := &pre{}
+			i := t.expr(l.Index, p)
+			t.emitPre(p, depth, out)
+			v := t.fresh()
+			*out = append(*out, fmt.Sprintf("%s%s (anySet %s %s %s) fun %s =>", ind(depth), t.chk(), t.ident(x), i, val, v))
+			*out = append(*out, fmt.Sprintf("%slet %s := %s", ind(depth), t.ident(x), v))
+			return
+		}
+		if f, ok := t.recvField(l.X); ok && !t.copy && isByteArray(t.typeOf(l.X)) {
 			p := &pre{}
 			i := t.expr(l.Index, p)
 			t.emitPre(p, depth, out)
@@ -777,6 +962,9 @@ func (t *tr) stmts(list []ast.Stmt, depth int, out *[]string, k func(depth int, 
 				want = t.leanType(t.typeOf(s.Rhs[0]))
 			} else if obj := t.lhsType(l); obj != nil {
 				want = t.leanType(obj)
+				if _, isPlace := t.place(l); t.copy && isPlace {
+					want = t.rep(l) // `reader.Msg` keeps its layout
+				}
 			}
 			v := t.typed(s.Rhs[0], want, p)
 			t.emitPre(p, depth, out)
@@ -792,9 +980,7 @@ func (t *tr) stmts(list []ast.Stmt, depth int, out *[]string, k func(depth int, 
 		p := &pre{}
 		var vals []string
 		if len(s.Results) == 0 {
-			for _, n := range t.named {
-				vals = append(vals, id(n))
-			}
+			vals = append(vals, t.named...)
 		} else if len(s.Results) == 1 && len(t.results) > 1 {
 			c, ok := s.Results[0].(*ast.CallExpr)
 			if !ok {
@@ -839,51 +1025,154 @@ func (t *tr) stmts(list []ast.Stmt, depth int, out *[]string, k func(depth int, 
 			next(depth+1, out)
 		}
 		t.defers = saved
-	case *ast.ForStmt:
-		if s.Init != nil || s.Post != nil || s.Cond == nil {
-			fail("only `for cond {…}` loops are supported")
+	case *ast.LabeledStmt:
+		switch s.Stmt.(type) {
+		case *ast.ForStmt, *ast.RangeStmt:
+			t.labels[s.Stmt] = s.Label.Name
+		default:
+			fail("label on %T", s.Stmt)
 		}
-		t.loopN++
-		name := fmt.Sprintf("%s_%s.loop%d", t.recvKind, t.fnName, t.loopN)
-		if t.recvKind == "" {
-			name = fmt.Sprintf("%s.loop%d", t.fnName, t.loopN)
+		t.stmts(append([]ast.Stmt{s.Stmt}, rest...), depth, out, k)
+	case *ast.BranchStmt:
+		// `continue` of the innermost loop (by label or bare): run the loop's post statements and iterate
+		if s.Tok != token.CONTINUE || len(t.loopStack) == 0 {
+			fail("%s statement", s.Tok)
 		}
-		// loop state: parameters and the locals visible here (declared before the loop in this function)
-		vars := t.scopeVars(s)
-		sig, args := "", ""
-		for _, v := range vars {
-			sig += fmt.Sprintf(" (%s : %s)", id(v.name), v.typ)
-			args += " " + id(v.name)
+		lp := t.loopStack[len(t.loopStack)-1]
+		if s.Label != nil && s.Label.Name != lp.label {
+			fail("continue of an outer loop: %s", s.Label.Name)
 		}
-		var body []string
-		body = append(body, fmt.Sprintf("def %s (fuel : Nat)%s (w : World) : Out (%s) :=", name, sig, tupleType(t.results)))
-		body = append(body, "  match fuel with")
-		body = append(body, "  | 0 => .fuel")
-		body = append(body, "  | fuel + 1 =>")
+		for _, l := range lp.post {
+			*out = append(*out, ind(depth)+l)
+		}
+		*out = append(*out, fmt.Sprintf("%s%s fuel%s w", ind(depth), lp.name, lp.args))
+	case *ast.SwitchStmt:
+		if s.Init != nil || s.Tag == nil {
+			fail("switch with an init statement or without a tag")
+		}
 		p := &pre{}
-		c := t.cond(s.Cond, p)
-		if len(p.lines) > 0 {
-			fail("checked operation in a loop condition")
-		}
-		body = append(body, fmt.Sprintf("    if %s then", c))
-		for _, st := range s.Body.List {
-			ast.Inspect(st, func(n ast.Node) bool {
-				if b, ok := n.(*ast.BranchStmt); ok {
-					fail("%s inside a loop", b.Tok)
+		lt := t.leanType(t.typeOf(s.Tag))
+		tag := t.typed(s.Tag, lt, p)
+		t.emitPre(p, depth, out)
+		v := t.fresh()
+		*out = append(*out, fmt.Sprintf("%slet %s := %s", ind(depth), v, tag))
+		var cases []*ast.CaseClause
+		var deflt *ast.CaseClause
+		for _, cs := range s.Body.List {
+			cc := cs.(*ast.CaseClause)
+			ast.Inspect(cc, func(n ast.Node) bool {
+				switch b := n.(type) {
+				case *ast.BranchStmt:
+					if b.Tok != token.CONTINUE {
+						fail("%s inside a switch", b.Tok)
+					}
+				case *ast.FuncLit:
+					return false
 				}
 				return true
 			})
+			if cc.List == nil {
+				deflt = cc
+			} else {
+				cases = append(cases, cc)
+			}
 		}
-		t.stmts(s.Body.List, 3, &body, func(d int, o *[]string) {
-			*o = append(*o, fmt.Sprintf("%s%s fuel%s w", ind(d), name, args))
-		})
-		body = append(body, "    else")
-		next(3, &body)
-		t.loops = append(t.loops, strings.Join(body, "\n"))
-		*out = append(*out, fmt.Sprintf("%s%s fuel%s w", ind(depth), name, args))
+		saved := t.defers
+		d := depth
+		for _, cc := range cases {
+			var alts []string
+			for _, x := range cc.List {
+				q := &pre{}
+				alts = append(alts, v+" = "+t.typed(x, lt, q))
+				if len(q.lines) > 0 {
+					fail("checked operation in a case expression")
+				}
+			}
+			*out = append(*out, fmt.Sprintf("%sif (%s) then", ind(d), strings.Join(alts, " ∨ ")))
+			t.stmts(cc.Body, d+1, out, next)
+			t.defers = saved
+			*out = append(*out, ind(d)+"else")
+			d++
+		}
+		if deflt != nil {
+			t.stmts(deflt.Body, d, out, next)
+		} else {
+			next(d, out)
+		}
+		t.defers = saved
+	case *ast.ForStmt:
+		if s.Init != nil || s.Post != nil {
+			fail("only `for cond {…}` and `for {…}` loops are supported")
+		}
+		c := ""
+		if s.Cond != nil {
+			p := &pre{}
+			c = t.cond(s.Cond, p)
+			if len(p.lines) > 0 {
+				fail("checked operation in a loop condition")
+			}
+		}
+		t.loop(s, s.Body, c, nil, nil, depth, out, next)
+	case *ast.RangeStmt:
+		// `for i := range n` over an integer: the bound is evaluated once, `i` runs from 0 to n-1
+		key, ok := s.Key.(*ast.Ident)
+		nk := numKind(t.typeOf(s.X))
+		if !ok || s.Value != nil || s.Tok != token.DEFINE || nk == "" || nk == "byte" {
+			fail("only `for i := range <integer>` range loops are supported")
+		}
+		p := &pre{}
+		bound := t.expr(s.X, p)
+		t.emitPre(p, depth, out)
+		b, i := t.fresh(), t.ident(key)
+		*out = append(*out, fmt.Sprintf("%slet %s : Int := %s", ind(depth), b, bound))
+		*out = append(*out, fmt.Sprintf("%slet %s : Int := 0", ind(depth), i))
+		t.loop(s, s.Body, fmt.Sprintf("(%s < %s)", i, b), []param{{b, "Int"}, {i, "Int"}},
+			[]string{fmt.Sprintf("let %s := (%s + 1)", i, i)}, depth, out, next)
 	default:
 		fail("unsupported statement %s (%T)", t.src(s), s)
 	}
+}
+
+// loop emits the recursive definition of one loop (`cond` empty: `for {…}`) and the call that enters it.
+// extra: loop state besides the variables in scope (already Lean names); post: run before the next iteration.
+func (t *tr) loop(s ast.Stmt, body *ast.BlockStmt, cond string, extra []param, post []string, depth int, out *[]string, next func(int, *[]string)) {
+	t.loopN++
+	name := fmt.Sprintf("%s_%s.loop%d", t.recvKind, t.fnName, t.loopN)
+	if t.recvKind == "" {
+		name = fmt.Sprintf("%s.loop%d", t.fnName, t.loopN)
+	}
+	// loop state: parameters and the locals visible here (declared before the loop in this function)
+	vars := append(t.scopeVars(s), extra...)
+	sig, args := "", ""
+	for _, v := range vars {
+		sig += fmt.Sprintf(" (%s : %s)", v.name, v.typ)
+		args += " " + v.name
+	}
+	var def []string
+	def = append(def, fmt.Sprintf("def %s (fuel : Nat)%s (w : %s) : %s (%s) :=", name, sig, t.worldTy(), t.outTy(), tupleType(t.results)))
+	def = append(def, "  match fuel with")
+	def = append(def, "  | 0 => .fuel")
+	def = append(def, "  | fuel + 1 =>")
+	d := 2
+	if cond != "" {
+		def = append(def, fmt.Sprintf("    if %s then", cond))
+		d = 3
+	}
+	t.loopStack = append(t.loopStack, loopCtx{name: name, label: t.labels[s], args: args, post: post})
+	t.stmts(body.List, d, &def, func(d int, o *[]string) {
+		for _, l := range post {
+			*o = append(*o, ind(d)+l)
+		}
+		*o = append(*o, fmt.Sprintf("%s%s fuel%s w", ind(d), name, args))
+	})
+	t.loopStack = t.loopStack[:len(t.loopStack)-1]
+	if cond != "" {
+		def = append(def, "    else")
+		// what follows the loop runs inside the loop's definition: its own loops and `continue`s see the outer loops
+		next(3, &def)
+	}
+	t.loops = append(t.loops, strings.Join(def, "\n"))
+	*out = append(*out, fmt.Sprintf("%s%s fuel%s w", ind(depth), name, args))
 }
 
 func (t *tr) lhsType(l ast.Expr) types.Type {
@@ -902,8 +1191,8 @@ func (t *tr) lhsType(l ast.Expr) types.Type {
 	return nil
 }
 
-// scopeVars: parameters, named results and locals defined (textually) before the loop statement.
-func (t *tr) scopeVars(loop *ast.ForStmt) []param {
+// scopeVars: parameters, named results and locals in scope at the loop statement (Lean names).
+func (t *tr) scopeVars(loop ast.Stmt) []param {
 	vars := append([]param{}, t.params...)
 	seen := map[string]bool{}
 	for _, v := range vars {
@@ -911,11 +1200,18 @@ func (t *tr) scopeVars(loop *ast.ForStmt) []param {
 	}
 	for idt, obj := range t.info.Defs {
 		v, ok := obj.(*types.Var)
-		if !ok || v.IsField() || idt.Pos() >= loop.Pos() || idt.Pos() < t.fnPos || idt.Name == "_" || idt.Name == t.recvName || seen[idt.Name] {
+		if !ok || v.IsField() || idt.Pos() >= loop.Pos() || idt.Pos() < t.fnPos || idt.Name == "_" || idt.Name == t.recvName {
 			continue
 		}
-		seen[idt.Name] = true
-		vars = append(vars, param{idt.Name, t.leanType(v.Type())})
+		if v.Parent() == nil || !v.Parent().Contains(loop.Pos()) || (t.copy && isContext(v.Type())) {
+			continue
+		}
+		n := t.ident(idt)
+		if seen[n] {
+			continue
+		}
+		seen[n] = true
+		vars = append(vars, param{n, t.leanType(v.Type())})
 	}
 	sort.SliceStable(vars[len(t.params):], func(i, j int) bool { return vars[len(t.params)+i].name < vars[len(t.params)+j].name })
 	return vars
@@ -938,6 +1234,8 @@ func (t *tr) function(fd *ast.FuncDecl) (defs string, err string) {
 	t.results, t.named, t.defers, t.tmp, t.loops, t.loopN, t.params = nil, nil, nil, 0, nil, 0, nil
 	t.fnPos = fd.Pos()
 	t.aliasFrame = map[string]bool{}
+	t.usesFuel, t.loopStack, t.labels = false, nil, map[ast.Stmt]string{}
+	t.nameVars(fd)
 	if fd.Recv != nil {
 		f := fd.Recv.List[0]
 		if len(f.Names) > 0 {
@@ -948,16 +1246,23 @@ func (t *tr) function(fd *ast.FuncDecl) (defs string, err string) {
 			ty = s.X
 		}
 		t.recvKind = ty.(*ast.Ident).Name
-		if t.recvKind != "Reader" && t.recvKind != "Writer" {
+		if t.copy {
+			if t.recvKind != "CopyReader" && t.recvKind != "BinaryCopyReader" {
+				fail("receiver %s", t.recvKind)
+			}
+		} else if t.recvKind != "Reader" && t.recvKind != "Writer" {
 			fail("receiver %s", t.recvKind)
 		}
 	}
 	sig := ""
 	for _, f := range fd.Type.Params.List {
 		for _, n := range f.Names {
+			if t.copy && isContext(t.typeOf(f.Type)) {
+				continue // the context is part of the world (`ctx.Err()` = `w.ctxErr`)
+			}
 			lt := t.leanType(t.typeOf(f.Type))
-			sig += fmt.Sprintf(" (%s : %s)", id(n.Name), lt)
-			t.params = append(t.params, param{n.Name, lt})
+			sig += fmt.Sprintf(" (%s : %s)", t.ident(n), lt)
+			t.params = append(t.params, param{t.ident(n), lt})
 		}
 	}
 	var inits []string
@@ -969,9 +1274,15 @@ func (t *tr) function(fd *ast.FuncDecl) (defs string, err string) {
 			}
 			for _, n := range f.Names {
 				t.results = append(t.results, lt)
-				t.named = append(t.named, n.Name)
-				zero := map[string]string{"Int": "0", "UInt8": "0", "Bool": "false", "Option Err": "none", "Bytes": "[]", "Sl": "{}"}[lt]
-				inits = append(inits, fmt.Sprintf("  let %s : %s := %s", id(n.Name), lt, zero))
+				zero := map[string]string{"Int": "0", "UInt8": "0", "Bool": "false", "Option Err": "none", "Option CErr": "none",
+					"Bytes": "[]", "Sl": "{}", "List AnyV": "[]"}[lt]
+				if n.Name == "_" {
+					// a blank result: `return` without operands yields its zero value
+					t.named = append(t.named, "("+zero+" : "+lt+")")
+					continue
+				}
+				t.named = append(t.named, t.ident(n))
+				inits = append(inits, fmt.Sprintf("  let %s : %s := %s", t.ident(n), lt, zero))
 			}
 		}
 	}
@@ -993,15 +1304,16 @@ func (t *tr) function(fd *ast.FuncDecl) (defs string, err string) {
 		name = t.recvKind + "_" + name
 	}
 	fuel := ""
-	if len(t.loops) > 0 {
+	if len(t.loops) > 0 || t.usesFuel {
 		fuel = " (fuel : Nat)"
+		t.needFuel[name] = true
 	}
 	var b strings.Builder
 	for _, l := range t.loops {
 		b.WriteString(l + "\n\n")
 	}
 	fmt.Fprintf(&b, "/-- %s -/\n", strings.ReplaceAll(t.src(fd.Type), "-/", "- /"))
-	fmt.Fprintf(&b, "def %s%s%s (w : World) : Out (%s) :=\n", name, fuel, sig, tupleType(t.results))
+	fmt.Fprintf(&b, "def %s%s%s (w : %s) : %s (%s) :=\n", name, fuel, sig, t.worldTy(), t.outTy(), tupleType(t.results))
 	for _, l := range inits {
 		b.WriteString(l + "\n")
 	}
@@ -1010,44 +1322,67 @@ func (t *tr) function(fd *ast.FuncDecl) (defs string, err string) {
 }
 
 func main() {
-	root := os.Args[1]
-	dir := filepath.Join(root, "pkg", "buffer")
+	args := os.Args[1:]
+	mode, dir := "buffer", ""
+	for len(args) > 0 && strings.HasPrefix(args[0], "-") {
+		switch args[0] {
+		case "-copy":
+			mode = "copy"
+			args = args[1:]
+		case "-o":
+			if len(args) < 2 {
+				usage()
+			}
+			mode, dir = "both", args[1]
+			args = args[2:]
+		default:
+			usage()
+		}
+	}
+	if len(args) != 1 {
+		usage()
+	}
+	root, err := filepath.Abs(args[0])
+	if err != nil {
+		panic(err)
+	}
+	if dir != "" {
+		if dir, err = filepath.Abs(dir); err != nil {
+			panic(err)
+		}
+	}
 	if err := os.Chdir(root); err != nil {
 		panic(err)
 	}
-	fset := token.NewFileSet()
-	pkgs, err := parser.ParseDir(fset, dir, func(fi os.FileInfo) bool {
-		return !strings.HasSuffix(fi.Name(), "_test.go")
-	}, 0)
-	if err != nil {
-		fmt.Fprintln(os.Stderr, "parse error:", err)
-		os.Exit(1)
+	trans, bt := translateBuffer(root)
+	switch mode {
+	case "buffer":
+		fmt.Print(trans)
+	case "copy":
+		fmt.Print(translateCopy(root, bt))
+	case "both":
+		writeIfChanged(filepath.Join(dir, "Trans.lean"), trans)
+		writeIfChanged(filepath.Join(dir, "TransCopy.lean"), translateCopy(root, bt))
 	}
-	p := pkgs["buffer"]
-	var files []*ast.File
-	var names []string
-	for n := range p.Files {
-		names = append(names, n)
-	}
-	sort.Strings(names)
-	for _, n := range names {
-		files = append(files, p.Files[n])
-	}
-	info := &types.Info{Types: map[ast.Expr]types.TypeAndValue{}, Defs: map[*ast.Ident]types.Object{}, Uses: map[*ast.Ident]types.Object{}}
-	conf := types.Config{Importer: importer.ForCompiler(fset, "source", nil), Error: func(e error) { fmt.Fprintln(os.Stderr, "type error:", e) }}
-	if _, err := conf.Check("buffer", fset, files, info); err != nil {
-		fmt.Fprintln(os.Stderr, "type check failed:", err)
-		os.Exit(1)
-	}
-	t := &tr{fset: fset, info: info, hasLoop: map[string]bool{}}
+}
 
-	// the functions to translate, in dependency order
-	want := []string{
-		"Reader.reset", "Reader.ReadType", "Reader.ReadMsgSize", "Reader.ReadUntypedMsg", "Reader.ReadTypedMsg", "Reader.Slurp",
-		"Reader.GetString", "Reader.GetBytes", "Reader.GetPrepareType", "Reader.GetUint16", "Reader.GetUint32",
-		"Writer.Reset", "Writer.Error", "Writer.Bytes", "Writer.Start", "Writer.AddByte", "Writer.AddInt16", "Writer.AddInt32",
-		"Writer.AddBytes", "Writer.AddString", "Writer.AddNullTerminate", "Writer.End", "EncodeBoolean",
+func usage() {
+	fmt.Fprintln(os.Stderr, "usage: pwtranslate [-copy | -o <dir>] <repo>")
+	os.Exit(2)
+}
+
+func writeIfChanged(path, content string) {
+	if old, err := os.ReadFile(path); err == nil && string(old) == content {
+		return
 	}
+	if err := os.WriteFile(path, []byte(content), 0o644); err != nil {
+		fmt.Fprintln(os.Stderr, err)
+		os.Exit(1)
+	}
+}
+
+// funcDecls: the function declarations of a package keyed "Recv.Name" / "Name"
+func funcDecls(files []*ast.File) map[string]*ast.FuncDecl {
 	decls := map[string]*ast.FuncDecl{}
 	for _, f := range files {
 		for _, d := range f.Decls {
@@ -1068,30 +1403,13 @@ func main() {
 			decls[n] = fd
 		}
 	}
-	var out strings.Builder
-	out.WriteString("/- GENERATED by go/translate from pkg/buffer of /repo's working tree on every check run. Do not edit. -/\n")
-	out.WriteString("import Pw.Go.Rt\nset_option linter.unusedVariables false\nnamespace Pw.Trans\nopen Pw Pw.Go\n\n")
-	var bad []string
-	for _, n := range want {
-		fd, ok := decls[n]
-		if !ok {
-			bad = append(bad, n+": not found")
-			continue
-		}
-		defs, e := t.function(fd)
-		if e != "" {
-			bad = append(bad, n+": "+e)
-			continue
-		}
-		if len(t.loops) > 0 {
-			t.hasLoop[strings.ReplaceAll(n, ".", "_")] = true
-		}
-		out.WriteString(defs + "\n")
-	}
-	// struct layouts of the two receivers (pinned in Tie.lean: Rt.lean's ReaderS/WriterS mirror them)
-	for _, sn := range []string{"Reader", "Writer"} {
-		obj := p.Scope
-		_ = obj
+	return decls
+}
+
+// structLayouts prints `def struct<Name>` for the named struct types (pinned by the tie theorems:
+// the run-time library's world mirrors them)
+func (t *tr) structLayouts(out *strings.Builder, files []*ast.File, names []string) {
+	for _, sn := range names {
 		for _, f := range files {
 			for _, d := range f.Decls {
 				gd, ok := d.(*ast.GenDecl)
@@ -1117,16 +1435,76 @@ func main() {
 							fs = append(fs, fmt.Sprintf("(%q, %q)", nm.Name, ty))
 						}
 					}
-					fmt.Fprintf(&out, "def struct%s : List (String × String) := [%s]\n", sn, strings.Join(fs, ", "))
+					fmt.Fprintf(out, "def struct%s : List (String × String) := [%s]\n", sn, strings.Join(fs, ", "))
 				}
 			}
 		}
 	}
+}
+
+// translateBuffer: pkg/buffer -> Trans.lean.  The translator state is handed on to the copy.go
+// translation (which of the package's functions exist in Trans.lean and which of them take fuel).
+func translateBuffer(root string) (string, *tr) {
+	dir := filepath.Join(root, "pkg", "buffer")
+	fset := token.NewFileSet()
+	pkgs, err := parser.ParseDir(fset, dir, func(fi os.FileInfo) bool {
+		return !strings.HasSuffix(fi.Name(), "_test.go")
+	}, 0)
+	if err != nil {
+		fmt.Fprintln(os.Stderr, "parse error:", err)
+		os.Exit(1)
+	}
+	p := pkgs["buffer"]
+	var files []*ast.File
+	var names []string
+	for n := range p.Files {
+		names = append(names, n)
+	}
+	sort.Strings(names)
+	for _, n := range names {
+		files = append(files, p.Files[n])
+	}
+	info := &types.Info{Types: map[ast.Expr]types.TypeAndValue{}, Defs: map[*ast.Ident]types.Object{}, Uses: map[*ast.Ident]types.Object{}}
+	conf := types.Config{Importer: importer.ForCompiler(fset, "source", nil), Error: func(e error) { fmt.Fprintln(os.Stderr, "type error:", e) }}
+	if _, err := conf.Check("buffer", fset, files, info); err != nil {
+		fmt.Fprintln(os.Stderr, "type check failed:", err)
+		os.Exit(1)
+	}
+	t := &tr{fset: fset, info: info, needFuel: map[string]bool{}, bufFns: map[string]bool{}}
+
+	// the functions to translate, in dependency order
+	want := []string{
+		"Reader.reset", "Reader.ReadType", "Reader.ReadMsgSize", "Reader.ReadUntypedMsg", "Reader.ReadTypedMsg", "Reader.Slurp",
+		"Reader.GetString", "Reader.GetBytes", "Reader.GetPrepareType", "Reader.GetUint16", "Reader.GetUint32",
+		"Writer.Reset", "Writer.Error", "Writer.Bytes", "Writer.Start", "Writer.AddByte", "Writer.AddInt16", "Writer.AddInt32",
+		"Writer.AddBytes", "Writer.AddString", "Writer.AddNullTerminate", "Writer.End", "EncodeBoolean",
+	}
+	decls := funcDecls(files)
+	var out strings.Builder
+	out.WriteString("/- GENERATED by go/translate from pkg/buffer of /repo's working tree on every check run. Do not edit. -/\n")
+	out.WriteString("import Pw.Go.Rt\nset_option linter.unusedVariables false\nnamespace Pw.Trans\nopen Pw Pw.Go\n\n")
+	var bad []string
+	for _, n := range want {
+		fd, ok := decls[n]
+		if !ok {
+			bad = append(bad, n+": not found")
+			continue
+		}
+		defs, e := t.function(fd)
+		if e != "" {
+			bad = append(bad, n+": "+e)
+			continue
+		}
+		t.bufFns[strings.ReplaceAll(n, ".", "_")] = true
+		out.WriteString(defs + "\n")
+	}
+	// struct layouts of the two receivers (pinned in Tie.lean: Rt.lean's ReaderS/WriterS mirror them)
+	t.structLayouts(&out, files, []string{"Reader", "Writer"})
 	var qs []string
 	for _, b := range bad {
 		qs = append(qs, fmt.Sprintf("%q", b))
 	}
 	fmt.Fprintf(&out, "\n/-- functions the translator could not handle (Tie.lean demands this be empty) -/\ndef untranslatable : List String := [%s]\n", strings.Join(qs, ", "))
 	out.WriteString("\nend Pw.Trans\n")
-	fmt.Print(out.String())
+	return out.String(), t
 }
